@@ -37,6 +37,7 @@ type MemSock struct {
 	closed   chan struct{}
 	once     sync.Once
 	failSend bool
+	failNext string
 	pumpDone chan struct{}
 }
 
@@ -133,6 +134,13 @@ func (s *MemSock) Pending() int {
 }
 
 // FailSend makes every later Send return an error.
+// FailNext makes the next Send of a frame of service type svc fail once (a transient local error such as ENOBUFS).
+func (s *MemSock) FailNext(svc string) {
+	s.mu.Lock()
+	s.failNext = svc
+	s.mu.Unlock()
+}
+
 func (s *MemSock) FailSend(on bool) {
 	s.mu.Lock()
 	s.failSend = on
@@ -161,8 +169,15 @@ func (s *MemSock) PumpDone() <-chan struct{} { return s.pumpDone }
 func (s *MemSock) Send(p knxnet.ServicePackable) error {
 	s.mu.Lock()
 	fail := s.failSend
+	once := s.failNext
 	s.mu.Unlock()
 	f := Build(p)
+	if once != "" && once == f.Svc {
+		s.mu.Lock()
+		s.failNext = ""
+		s.mu.Unlock()
+		fail = true
+	}
 	if fail || s.IsClosed() {
 		s.Rec.FrameEv("OutErr", f, -1)
 		return errors.New("sim: socket send failed")
